@@ -346,3 +346,18 @@ Proof.
   intros HP HPl Hk. unfold rfloat at 2 3. fold (ticks64 P x).
   rewrite (rnd64_int (ticks64 P x)) by lia. now apply binary64_on_grid_fixed.
 Qed.
+
+(* ---- C13, monotone at the binary64 level ---- *)
+Lemma rnd64_le x y : x <= y -> rnd64 x <= rnd64 y.
+Proof. intro H. unfold rnd64. apply round_le; [apply FLT_exp_valid; unfold Prec_gt_0; lia | apply valid_rnd_N | exact H]. Qed.
+
+(* rounding is monotone at the binary64 level *)
+Theorem binary64_monotone (P x y : R) : 0 < P -> x <= y -> rfloat rnd64 P x <= rfloat rnd64 P y.
+Proof.
+  intros HP Hxy. unfold rfloat.
+  apply rnd64_le. apply Rmult_le_compat_r; [lra|].
+  apply rnd64_le. apply IZR_le. apply Zfloor_le.
+  apply rnd64_le. apply Rplus_le_compat_r.
+  apply rnd64_le. unfold Rdiv. apply Rmult_le_compat_r; [|exact Hxy].
+  left. now apply Rinv_0_lt_compat.
+Qed.
